@@ -171,8 +171,11 @@ def impl(case):
     out['tout'] = o2.transform(tm).vectors.reshape(-1, 3).tolist()
     # spherical representation and autocorrelation of the bond vectors
     sph = cartesian_to_spherical(vec, degrees=True)
-    out['sph'] = sph.reshape(-1, 3)[:3].tolist()
-    out['cart'] = vec.reshape(-1, 3)[:3].tolist()
+    special = np.array([[0, 0, 1.5], [0, 0, -2.0], [1.0, 0, 0], [-1.0, 0, 0], [0, 2.0, 0], [0, -1.0, 0], [0, 1.0, 1.0], [1.0, 0, -1.0], [-1.0, -1.0, 0]]
+                       + [[float(c) for c in v] for v in case['vecs'] if any(v)])
+    sph_s = cartesian_to_spherical(special.reshape(1, -1, 3), degrees=True).reshape(-1, 3)
+    out['sph'] = sph.reshape(-1, 3)[:3].tolist() + sph_s.tolist()
+    out['cart'] = vec.reshape(-1, 3)[:3].tolist() + special.tolist()
     ac = ori.autocorrelation()
     out['ac'] = np.asarray(ac).tolist()
     out['ac_def'] = _autocorr_def(vec).tolist()
